@@ -437,6 +437,7 @@ package raft
 //@   ensures  log_untouched: r.lastLogIndex == old(r.lastLogIndex) && r.lastLogTerm == old(r.lastLogTerm) && r.commitIndex == old(r.commitIndex)
 //@   ensures  state_untouched: r.state == old(r.state)
 //@   ensures  self_vote_only_if_voter: result != nil && sent(result) > 0 ==> isVoter(r.configurations.latest, r.localID)
+//@   at call (*Raft).electSelf$1#* assert only_other_voters_are_asked: arg0.Suffrage == Voter && arg0.ID != r.localID
 //@   loop 1 invariant terms: r.currentTerm == curTermDurable(r) && voteTerm(r) <= curTermDurable(r)
 //@   loop 1 invariant own_vote_only_as_voter: respCh != nil && (sent(respCh) > 0 ==> exists k int :: 0 <= k && k < #i &&
 //@              r.configurations.latest.Servers[k].ID == r.localID && r.configurations.latest.Servers[k].Suffrage == Voter)
@@ -795,9 +796,11 @@ package raft
 // ---------------------------------------------------------------------------
 // Heartbeats (sender-side obligation behind the follower's commit rule; C02/C05/C09)
 
+//@ ghostvar rpcFailures int
 //@ interface Transport.AppendEntries(id, target, args, resp)
 //@   requires nonnil: args != nil && resp != nil
-//@   modifies *resp
+//@   modifies *resp, rpcFailures
+//@   ensures  counted: (result != nil) == (rpcFailures == old(rpcFailures) + 1) && (result == nil) == (rpcFailures == old(rpcFailures))
 
 //@ func cappedExponentialBackoff
 //@   trusted pure arithmetic on durations
@@ -810,6 +813,8 @@ package raft
 //@              arg2.LeaderCommitIndex == 0 && len(arg2.Entries) == 0 && arg2.Term == s.currentTerm
 //@   loop 1 invariant notify_valid: s.notify != nil && (forall w *verifyFuture :: dom(s.notify, w) ==> w != nil && w.votes < MaxInt63)
 //@   at call (*verifyFuture).vote#* assert votes_are_cast_through_notifyAll_only: false
+//@   at call (*followerReplication).notifyAll#1 assert acknowledges_with_the_followers_answer: arg1 == resp.Success
+//@   loop 1 step acknowledges_only_after_a_successful_exchange: s.notify != old(s.notify) ==> rpcFailures == old(rpcFailures)
 
 // ---------------------------------------------------------------------------
 // C10: start-up recovery (function-level slivers)
@@ -1685,3 +1690,13 @@ package raft
 //@   localonly
 //@   ensures  old_protocol_refused: r.protocolVersion < 3 ==> typeis(result, errorFuture) && cast(result, errorFuture).err == ErrUnsupportedProtocol && sent(r.leadershipTransferCh) == old(sent(r.leadershipTransferCh))
 //@   ensures  names_the_requested_server: typeis(result, *leadershipTransferFuture) ==> cast(result, *leadershipTransferFuture).ShutdownCh == r.shutdownCh && cast(result, *leadershipTransferFuture).ID != nil && *cast(result, *leadershipTransferFuture).ID == id && *cast(result, *leadershipTransferFuture).Address == address
+
+// ---------------------------------------------------------------------------
+// C14/C01: only the other voters of the latest configuration are asked for a (pre-)vote; the pre-vote round
+// proposes the next term without changing the server's term or state
+
+//@ func (r *Raft) preElectSelf
+//@   requires nonnil: r != nil && r.trans != nil && r.logger != nil
+//@   localonly
+//@   at call (*Raft).preElectSelf$1#* assert only_other_voters_are_asked: arg0.Suffrage == Voter && arg0.ID != r.localID
+//@   ensures  proposes_without_changing_state: r.currentTerm == old(r.currentTerm) && r.state == old(r.state)
